@@ -750,6 +750,8 @@ def _get_spans_for_2_fields(ndarray0, ndarray1):
 def _get_spans_for_2_fields_njit(ndarray0, ndarray1, spans):
     count = 0
     spans[0] = 0
+    if len(ndarray0) == 0:
+        return spans[:1]  # no rows: the single boundary 0, as get_spans_for_field returns
     for i in np.arange(1, len(ndarray0)):
         if ndarray0[i] != ndarray0[i - 1] or ndarray1[i] != ndarray1[i - 1]:
             count += 1
@@ -772,6 +774,8 @@ def _get_spans_for_multi_fields_njit(fields_data, spans):
     count = 0
     length = len(fields_data[0])
     spans[0] = 0
+    if length == 0:
+        return spans[:1]  # no rows: the single boundary 0, as get_spans_for_field returns
     for i in np.arange(1, length):
         not_equal = False
         for f_d in fields_data:
